@@ -74,6 +74,104 @@ let c17 lineno (f : string array) =
     verdict lineno r r
   | k -> failwith ("c17: unknown sub-kind " ^ k)
 
+(* ---- histories ---------------------------------------------------------------- *)
+let md5 (b : M.n list) : M.n list =
+  let d = Digest.string (string_of_bytes b) in
+  List.init 16 (fun i -> ntab.(Char.code d.[i]))
+
+let split_on c s = if s = "-" || s = "" then [] else String.split_on_char c s
+
+let pair_of s = match String.split_on_char ':' s with
+  | [a; b] -> (bytes_of_hex (if a = "" then "-" else a), bytes_of_hex (if b = "" then "-" else b))
+  | _ -> failwith ("bad pair " ^ s)
+
+let hist_cfg : M.config ref = ref { M.cfg_auto_bucket = false; cfg_versioned = true; cfg_pages = true; cfg_fail_unimpl_page = false }
+let hist_state : M.hstate ref = ref M.hinit
+let walk_pages : M.page_obs list ref = ref []
+let walk_full : M.page_obs option ref = ref None
+let walk_mode = ref 0 (* 0 none, 1 collecting pages, 2 next list is the full listing *)
+let walk_max = ref 0
+
+let parse_cfg (s : string) =
+  let get k = List.exists (fun kv -> kv = k ^ "=1") (String.split_on_char ',' s) in
+  { M.cfg_auto_bucket = get "auto"; cfg_versioned = get "versioned"; cfg_pages = get "pages";
+    cfg_fail_unimpl_page = get "failpage" }
+
+let parse_obs (f : string array) (i : int) : M.obs =
+  { M.ob_status = z_of_int (int_of_string f.(i)); ob_code = bytes_of_hex f.(i+1); ob_panic = bool_of_field f.(i+2);
+    ob_body = bytes_of_hex f.(i+3); ob_etag = bytes_of_hex f.(i+4); ob_cl = bytes_of_hex f.(i+5);
+    ob_vid = bytes_of_hex f.(i+6); ob_delmarker = bytes_of_hex f.(i+7);
+    ob_meta = List.map pair_of (split_on ',' f.(i+8));
+    ob_names = List.map bytes_of_hex (split_on ',' f.(i+9));
+    ob_contents = List.map (fun c -> match String.split_on_char ':' c with
+        | [k; sz; et] -> (bytes_of_hex k, (z_of_int (int_of_string sz), bytes_of_hex et))
+        | _ -> failwith "bad content") (split_on ',' f.(i+10));
+    ob_truncated = bool_of_field f.(i+11); ob_next = bytes_of_hex f.(i+12) }
+
+let arrow_index (f : string array) : int =
+  let r = ref (-1) in Array.iteri (fun i x -> if x = "=>" && !r < 0 then r := i) f; !r
+
+let parse_hop (f : string array) : M.hop =
+  let h i = bytes_of_hex f.(i) in
+  match f.(2) with
+  | "mkb" -> M.HCreateBucket (h 3) | "rmb" -> M.HDeleteBucket (h 3) | "hdb" -> M.HHeadBucket (h 3)
+  | "lsb" -> M.HListBuckets
+  | "put" -> M.HPut (h 3, h 4, h 5, List.map pair_of (split_on ',' f.(6)))
+  | "get" -> M.HGet (h 3, h 4, h 5) | "head" -> M.HHead (h 3, h 4, h 5)
+  | "del" -> M.HDelete (h 3, h 4) | "delv" -> M.HDeleteVersion (h 3, h 4, h 5)
+  | "mdel" -> M.HMultiDelete (h 3, List.map pair_of (split_on ',' f.(4)))
+  | "copy" -> M.HCopy (h 3, h 4, h 5, h 6)
+  | "ver" -> M.HSetVersioning (h 3, bool_of_field f.(4))
+  | "list" ->
+    let d = if f.(5) = "-" then None else (match bytes_of_hex f.(5) with [c] -> Some c | _ -> failwith "multi-byte delimiter") in
+    M.HList (h 3, h 4, d, h 6, bool_of_field f.(7), z_of_int (int_of_string f.(8)), bool_of_field f.(9))
+  | k -> failwith ("unknown op " ^ k)
+
+let split_tags (l : M.n list list) =
+  let strs = List.map string_of_bytes l in
+  let m = List.filter (fun s -> String.length s >= 2 && String.sub s 0 2 = "M:") strs in
+  let sp = List.filter (fun s -> not (String.length s >= 2 && String.sub s 0 2 = "M:")) strs in
+  (m, sp)
+
+let verdict_tagged lineno (l : M.n list list) =
+  if l = [] then print_string "OK\n" else begin
+    let (m, sp) = split_tags l in
+    let j x = if x = [] then "-" else String.concat "," x in
+    (* a spec failure is also a model mismatch *)
+    Printf.printf "FAIL\t%d\tmodel=%s\tspec=%s\n" lineno (j (m @ sp)) (j sp)
+  end
+
+let hist lineno (f : string array) =
+  match f.(1) with
+  | "H" ->
+    hist_cfg := parse_cfg f.(3);
+    let pre = if Array.length f > 4 then List.map bytes_of_hex (split_on ',' f.(4)) else [] in
+    hist_state := List.fold_left (fun hs b ->
+        { hs with M.hs_model = fst (M.create_bucket hs.M.hs_model b) }) M.hinit pre;
+    walk_mode := 0; print_string "SKIP\n"
+  | "E" -> print_string "SKIP\n"
+  | "O" ->
+    let ai = arrow_index f in
+    let o = parse_hop f and ob = parse_obs f (ai + 1) in
+    let (st', l) = M.hist_step md5 !hist_cfg !hist_state o ob in
+    hist_state := st';
+    (match o with
+     | M.HList _ when !walk_mode > 0 ->
+       let pg = { M.pg_keys = List.map fst ob.M.ob_contents; pg_prefixes = ob.M.ob_names; pg_truncated = ob.M.ob_truncated } in
+       if !walk_mode = 2 then (walk_full := Some pg; walk_mode := 1) else walk_pages := !walk_pages @ [pg]
+     | _ -> ());
+    verdict_tagged lineno l
+  | "WB" -> walk_mode := 1; walk_pages := []; walk_full := None; walk_max := int_of_string f.(2); print_string "SKIP\n"
+  | "WF" -> walk_mode := 2; print_string "SKIP\n"
+  | "WE" ->
+    let full = (match !walk_full with Some p -> p | None -> { M.pg_keys = []; pg_prefixes = []; pg_truncated = false }) in
+    let r = M.walk_check (z_of_int !walk_max) !walk_pages full (bool_of_field f.(2)) in
+    walk_mode := 0;
+    let strs = List.map string_of_bytes r in
+    if strs = [] then print_string "OK\n"
+    else Printf.printf "FAIL\t%d\tmodel=-\tspec=%s\n" lineno (String.concat "," strs)
+  | k -> failwith ("hist: unknown line kind " ^ k)
+
 let () =
   let lineno = ref 0 in
   (try
@@ -84,6 +182,7 @@ let () =
       (match f.(0) with
        | "c11" -> c11 !lineno f
        | "c17" -> c17 !lineno f
+       | "c01" | "c02" | "c03" | "c04" | "c05" | "c10" | "c13" -> hist !lineno f
        | "#" -> print_string "OK\n"
        | k -> failwith ("unknown case kind " ^ k))
     done
